@@ -77,6 +77,10 @@ structure CInv (c : Chunk) (l : List (Int × Hist)) : Prop where
   wf : ∀ p ∈ l, WFs p.2
   flt : ∀ p ∈ l, p.2.float = c.float
   adj : AdjOk (c.hdr == .gauge) l
+  /-- a stored staleness marker is empty (`&histogram.Histogram{Sum: h.Sum}`) -/
+  staleForm : ∀ s ∈ c.rev, s.sum = staleBits → s.count = 0 ∧ s.zcount = 0 ∧ s.pB = [] ∧ s.nB = []
+  /-- a chunk that starts with a staleness marker has the empty layout -/
+  staleFirst : ∀ s, c.rev.getLast? = some s → s.sum = staleBits → c.pSpans = [] ∧ c.nSpans = []
 
 theorem AdjOk.all_live {g : Bool} : ∀ {l : List (Int × Hist)} {x : Int × Hist}, AdjOk g (x :: l) → x.2.stale = false →
     ∀ p ∈ x :: l, p.2.stale = false
@@ -124,17 +128,27 @@ theorem CInv.first (c0 : Chunk) (he : c0.rev = []) (t : Int) (h : Hist) (hwf : W
   | true =>
     rw [appendRaw_nil_stale c0 he t h hs]
     have hsum : h.sum = staleBits := by simpa [Hist.stale] using hs
-    refine ⟨?_, by simp [idxs_nil], by simp [idxs_nil], by simpa using hwf, by simpa using hfl, by simp [AdjOk]⟩
-    refine ⟨?_, trivial⟩
-    exact ⟨rfl, fun _ => hsum, fun h' => by simp [hs] at h'⟩
+    refine ⟨?_, by simp [idxs_nil], by simp [idxs_nil], by simpa using hwf, by simpa using hfl, by simp [AdjOk],
+      ?_, fun _ _ _ => ⟨rfl, rfl⟩⟩
+    · refine ⟨?_, trivial⟩
+      exact ⟨rfl, fun _ => hsum, fun h' => by simp [hs] at h'⟩
+    · intro s hs' _
+      simp only [List.mem_singleton] at hs'
+      subst hs'; exact ⟨rfl, rfl, rfl, rfl⟩
   | false =>
     rw [appendRaw_nil c0 he t h hs]
     have hsum : h.sum ≠ staleBits := by simpa [Hist.stale] using hs
     have w := hwf hs
-    refine ⟨?_, w.pSorted, w.nSorted, by simpa using hwf, by simpa using hfl, by simp [AdjOk]⟩
-    refine ⟨?_, trivial⟩
-    refine ⟨rfl, fun h' => by simp [hs] at h', fun _ => ⟨hsum, ?_, w.pLen, w.nLen⟩⟩
-    simp [Chunk.histOf, hsum, Hist.sem, hfl]
+    refine ⟨?_, w.pSorted, w.nSorted, by simpa using hwf, by simpa using hfl, by simp [AdjOk], ?_, ?_⟩
+    · refine ⟨?_, trivial⟩
+      refine ⟨rfl, fun h' => by simp [hs] at h', fun _ => ⟨hsum, ?_, w.pLen, w.nLen⟩⟩
+      simp [Chunk.histOf, hsum, Hist.sem, hfl]
+    · intro s hs' hst
+      simp only [List.mem_singleton] at hs'
+      subst hs'; exact absurd hst hsum
+    · intro s hs' hst
+      simp only [List.getLast?_singleton, Option.some.injEq] at hs'
+      subst hs'; exact absurd hst hsum
 
 /-! ## All2 -/
 
@@ -167,6 +181,17 @@ theorem All2.imp {α β : Type} {R S : α → β → Prop} : ∀ {as : List α} 
   | _ :: _, [], h, _ => h.elim
   | a :: as, b :: bs, h, f =>
     ⟨f a (by simp) b (by simp) h.1, All2.imp h.2 fun a' ha b' hb => f a' (by simp [ha]) b' (by simp [hb])⟩
+
+theorem All2.mem_left {α β : Type} {R : α → β → Prop} : ∀ {as : List α} {bs : List β},
+    All2 R as bs → ∀ a ∈ as, ∃ b ∈ bs, R a b
+  | [], [], _, _, h => by simp at h
+  | [], _ :: _, h, _, _ => h.elim
+  | _ :: _, [], h, _, _ => h.elim
+  | x :: as, y :: bs, h, a, ha => by
+    rcases List.mem_cons.1 ha with rfl | ha
+    · exact ⟨y, by simp, h.1⟩
+    · obtain ⟨b, hb, hr⟩ := All2.mem_left h.2 a ha
+      exact ⟨b, by simp [hb], hr⟩
 
 /-! ## recode -/
 
@@ -376,7 +401,13 @@ theorem CInv.step (c : Chunk) (l : List (Int × Hist)) (inv : CInv c l) (t : Int
       have e2 : idxs S2 = idxs c.nSpans := by rw [hS2, pn.merge_of_f_nil hnf]
       rw [appendRaw_cons c hne t h1 h1ns]
       subst hh1
-      refine ⟨⟨?_, ?_⟩, inv.pS, inv.nS, hwfs, ?_, hadj' _ rfl⟩
+      have hsumne : h.sum ≠ staleBits := by simpa [Hist.stale] using hns
+      have hlive' : ∀ s ∈ (⟨t, h.count, h.zcount, h.sum, pB1, nB1⟩ : Stored) :: c.rev, s.sum ≠ staleBits := by
+        intro s hs; rcases List.mem_cons.1 hs with rfl | hs
+        · exact hsumne
+        · exact (hall s hs).1
+      refine ⟨⟨?_, ?_⟩, inv.pS, inv.nS, hwfs, ?_, hadj' _ rfl, fun s hs hst => absurd hst (hlive' s hs),
+        fun s hs hst => absurd hst (hlive' s (List.mem_of_getLast? hs))⟩
       · refine Rep_new _ t h hns pB1 nB1 hfl.symm hsch.symm hzt.symm hcu.symm ?_ ?_ ?_ ?_
         · rw [← bp.1]; exact bucketMap_congr _ _ _ _ e1.symm
         · rw [← bn.1]; exact bucketMap_congr _ _ _ _ e2.symm
@@ -395,7 +426,14 @@ theorem CInv.step (c : Chunk) (l : List (Int × Hist)) (inv : CInv c l) (t : Int
         intro he; have := All2.length hall2; rw [he, hrev] at this; simp at this
       rw [appendRaw_cons c1 hne1 t h1 h1ns]
       subst hh1
-      refine ⟨⟨?_, ?_⟩, ?_, ?_, hwfs, ?_, ?_⟩
+      have hsumne : h.sum ≠ staleBits := by simpa [Hist.stale] using hns
+      have hlive' : ∀ s ∈ (⟨t, h.count, h.zcount, h.sum, pB1, nB1⟩ : Stored) :: c1.rev, s.sum ≠ staleBits := by
+        intro s hs; rcases List.mem_cons.1 hs with rfl | hs
+        · exact hsumne
+        · obtain ⟨s', hs', hr⟩ := All2.mem_left hall2 s hs
+          rw [hr.2.1]; exact (hall s' hs').1
+      refine ⟨⟨?_, ?_⟩, ?_, ?_, hwfs, ?_, ?_, fun s hs hst => absurd hst (hlive' s hs),
+        fun s hs hst => absurd hst (hlive' s (List.mem_of_getLast? hs))⟩
       · refine Rep_new _ t h hns pB1 nB1 (by simp [rfl1, hfl]) (by simp [rsch, hsch]) (by simp [rzt, hzt])
           (by simp [rcu, hcu]) ?_ ?_ ?_ ?_
         · show bucketMap h.float c1.pSpans pB1 = _
